@@ -5,18 +5,35 @@ from fractions import Fraction
 from . import au
 
 
+def clone(node):
+    """Structural copy of an AST (fields + positions only): the `_parent` links the loader adds are not
+    followed, so copying an expression does not drag the whole module along."""
+    if isinstance(node, list):
+        return [clone(x) for x in node]
+    if not isinstance(node, ast.AST):
+        return node
+    new = type(node)()
+    for f in node._fields:
+        if hasattr(node, f):
+            setattr(new, f, clone(getattr(node, f)))
+    for a in ("lineno", "col_offset", "end_lineno", "end_col_offset"):
+        if hasattr(node, a):
+            setattr(new, a, getattr(node, a))
+    return new
+
+
 class Subst(ast.NodeTransformer):
     def __init__(self, mapping):
         self.mapping = mapping
 
     def visit_Name(self, node):
         if isinstance(node.ctx, ast.Load) and node.id in self.mapping:
-            return copy.deepcopy(self.mapping[node.id])
+            return clone(self.mapping[node.id])
         return node
 
 
 def subst(expr, mapping):
-    return Subst(mapping).visit(copy.deepcopy(expr))
+    return Subst(mapping).visit(clone(expr))
 
 
 def split_assign(st):
